@@ -451,10 +451,20 @@ func (m *MdnsManager) processMdnsEntry(elements map[string]string, name, host st
 		return
 	}
 
-	// remove IPv6 local link addresses
+	// remove IPv6 local link addresses and addresses listed more than once
 	var newAddresses []net.IP
 	for _, address := range addresses {
 		if address.To4() == nil && address.IsLinkLocalUnicast() {
+			continue
+		}
+		isNewElement := true
+		for _, item := range newAddresses {
+			if item.String() == address.String() {
+				isNewElement = false
+				break
+			}
+		}
+		if !isNewElement {
 			continue
 		}
 		newAddresses = append(newAddresses, address)
